@@ -1,1 +1,171 @@
-//! Test service for the server harnesses (filled in with the server harness).
+//! Test service for the server harnesses.
+//!
+//! * `t.Plain{n, tag}` -> `Single({n, tag})` (the borrowed `tag` is echoed, so that a call whose
+//!   buffer was clobbered between decoding and handling shows up in the reply),
+//! * `t.Fail{n}` -> `Error(t.Failed{n})`,
+//! * `t.Watch{k}` -> `Multi(stream k)`, whose items are released by driver events.
+//!
+//! Replies depend only on the call, so what a connection must receive is computable from its own
+//! script alone.  The service records every call it is handed, with the flags it saw.
+
+use std::cell::RefCell;
+use std::collections::{BTreeMap, VecDeque};
+use std::pin::Pin;
+use std::rc::Rc;
+use std::task::{Context, Poll, Waker};
+
+use serde::{Deserialize, Serialize};
+use zlink_core::service::MethodReply;
+use zlink_core::{Call, Reply, Service};
+
+#[derive(Debug, Deserialize)]
+#[serde(tag = "method", content = "parameters")]
+pub enum SvcCall<'a> {
+    #[serde(rename = "t.Plain")]
+    Plain {
+        n: u32,
+        #[serde(borrow)]
+        tag: &'a str,
+    },
+    #[serde(rename = "t.Fail")]
+    Fail { n: u32 },
+    #[serde(rename = "t.Watch")]
+    Watch { k: u32 },
+}
+
+#[derive(Debug, Clone, Serialize, PartialEq)]
+pub struct Out {
+    pub n: u32,
+    pub tag: String,
+}
+
+#[derive(Debug, zlink_core::ReplyError)]
+#[zlink(interface = "t", crate = "zlink_core")]
+pub enum SvcErr {
+    Failed { n: u32 },
+}
+
+#[derive(Default)]
+pub struct StreamCtl {
+    pub queue: VecDeque<Reply<Out>>,
+    pub ended: bool,
+    pub waker: Option<Waker>,
+    pub dropped: bool,
+    pub produced: usize,
+}
+
+/// Driver-side handle to a reply stream the service has opened.
+#[derive(Clone)]
+pub struct StreamHandle(pub Rc<RefCell<StreamCtl>>);
+impl StreamHandle {
+    pub fn produce(&self, item: Reply<Out>) {
+        let w = {
+            let mut s = self.0.borrow_mut();
+            s.queue.push_back(item);
+            s.produced += 1;
+            s.waker.take()
+        };
+        if let Some(w) = w {
+            w.wake();
+        }
+    }
+    pub fn end(&self) {
+        let w = {
+            let mut s = self.0.borrow_mut();
+            s.ended = true;
+            s.waker.take()
+        };
+        if let Some(w) = w {
+            w.wake();
+        }
+    }
+    pub fn dropped(&self) -> bool {
+        self.0.borrow().dropped
+    }
+}
+
+pub struct ControlledStream(Rc<RefCell<StreamCtl>>);
+impl std::fmt::Debug for ControlledStream {
+    fn fmt(&self, f: &mut std::fmt::Formatter<'_>) -> std::fmt::Result {
+        write!(f, "ControlledStream")
+    }
+}
+impl Drop for ControlledStream {
+    fn drop(&mut self) {
+        self.0.borrow_mut().dropped = true;
+    }
+}
+impl futures_util::Stream for ControlledStream {
+    type Item = Reply<Out>;
+    fn poll_next(self: Pin<&mut Self>, cx: &mut Context<'_>) -> Poll<Option<Self::Item>> {
+        let mut s = self.0.borrow_mut();
+        if let Some(x) = s.queue.pop_front() {
+            Poll::Ready(Some(x))
+        } else if s.ended {
+            Poll::Ready(None)
+        } else {
+            s.waker = Some(cx.waker().clone());
+            Poll::Pending
+        }
+    }
+}
+
+#[derive(Clone, Debug, PartialEq, Eq)]
+pub struct Handled {
+    /// `n` of Plain/Fail, `k` of Watch
+    pub id: u32,
+    pub kind: char, // 'P', 'F', 'W'
+    pub oneway: bool,
+    pub more: bool,
+    /// value of the driver's probe when the call was handed to the service (C18: number of
+    /// connection-set changes the server has made so far)
+    pub epoch: u64,
+}
+
+#[derive(Clone, Default)]
+pub struct SvcShared {
+    pub log: Rc<RefCell<Vec<Handled>>>,
+    pub streams: Rc<RefCell<BTreeMap<u32, StreamHandle>>>,
+    #[allow(clippy::type_complexity)]
+    pub probe: Rc<RefCell<Option<Box<dyn Fn() -> u64>>>>,
+}
+
+pub struct TestSvc {
+    pub shared: SvcShared,
+}
+
+impl TestSvc {
+    pub fn new() -> (TestSvc, SvcShared) {
+        let shared = SvcShared::default();
+        (TestSvc { shared: shared.clone() }, shared)
+    }
+}
+
+impl Service for TestSvc {
+    type MethodCall<'de> = SvcCall<'de>;
+    type ReplyParams<'ser> = Out;
+    type ReplyStreamParams = Out;
+    type ReplyStream = ControlledStream;
+    type ReplyError<'ser> = SvcErr;
+
+    async fn handle<'ser>(&'ser mut self, call: Call<Self::MethodCall<'_>>) -> MethodReply<Self::ReplyParams<'ser>, Self::ReplyStream, Self::ReplyError<'ser>> {
+        let (oneway, more) = (call.oneway(), call.more());
+        let epoch = self.shared.probe.borrow().as_ref().map_or(0, |f| f());
+        match call.method() {
+            SvcCall::Plain { n, tag } => {
+                self.shared.log.borrow_mut().push(Handled { id: *n, kind: 'P', oneway, more, epoch });
+                MethodReply::Single(Some(Out { n: *n, tag: tag.to_string() }))
+            }
+            SvcCall::Fail { n } => {
+                self.shared.log.borrow_mut().push(Handled { id: *n, kind: 'F', oneway, more, epoch });
+                MethodReply::Error(SvcErr::Failed { n: *n })
+            }
+            SvcCall::Watch { k } => {
+                self.shared.log.borrow_mut().push(Handled { id: *k, kind: 'W', oneway, more, epoch });
+                let ctl = Rc::new(RefCell::new(StreamCtl::default()));
+                self.shared.streams.borrow_mut().insert(*k, StreamHandle(ctl.clone()));
+                MethodReply::Multi(ControlledStream(ctl))
+            }
+        }
+    }
+}
